@@ -6,6 +6,7 @@ import OrasModel.Driver.Fr
 import OrasModel.Driver.O
 import OrasModel.Driver.Cr
 import OrasModel.Driver.Pf
+import OrasModel.Driver.Tr
 open Oras.Driver
 
 structure DState where
@@ -30,6 +31,9 @@ def handle (st : DState) (line : String) : DState × String :=
       | some (m, s) => (st, s!"m={m} s={s}")
       | none => (st, "bad-op"))
   | "pf" :: rest => (match Pf.step rest with
+      | some (m, s) => (st, s!"m={m} s={s}")
+      | none => (st, "bad-op"))
+  | "tr" :: rest => (match Tr.step rest with
       | some (m, s) => (st, s!"m={m} s={s}")
       | none => (st, "bad-op"))
   | "ref" :: rest => (match R.step rest with
